@@ -1885,6 +1885,40 @@ const SPECS: &[Spec] = &[
                (`validate`), and a manifest-number override must EXCEED the signer's current manifest / CRL number \
                (`self.objects.revision().number()`, the parameter `current_number`); the signing itself is the parameter `rest`.",
     },
+    Spec {
+        id: "C06",
+        file: "src/commons/eventsourcing/agg.rs",
+        ty: "Aggregate",
+        method: "apply_command",
+        lean: "Aggregate.apply_command",
+        sig: "&mutself,command:StoredCommand<Self>->()",
+        binders: "{S E : Type} (increment_version : S → S) (apply : S → E → S) (into_events : Option (List E)) (self_agg : S)",
+        args: "increment_version apply into_events self_agg",
+        ret: "S",
+        num: Num::Nat,
+        names: &[("command.into_events()", "into_events")],
+        methods: &[],
+        state_ty: &[("self_agg", "S")],
+        elem_ty: "E",
+        enums: &[],
+        structs: &[],
+        types: &[],
+        opaque_lets: &[],
+        effects: &[
+            ("self.increment_version()", "self_agg", "increment_version self_agg"),
+            ("self.apply(event)", "self_agg", "apply self_agg event"),
+        ],
+        wrapper: None,
+        cond_effects: &[],
+        self_fields: &["agg"],
+        mut_params: &[],
+        extern_enums: &[],
+        tail: None,
+        note: "the provided method of `trait Aggregate` (every aggregate uses it); the aggregate value as a whole is the mutable \
+               local `self_agg` (`S`), `increment_version` and `apply` are the trait's required methods (parameters), \
+               `command.into_events()` - `Some(events)` for a stored success, `None` for an init command or a stored refusal - is \
+               the parameter `into_events`; the result is the aggregate after the call.",
+    },
 ];
 
 type R = Result<String, String>;
@@ -2923,9 +2957,15 @@ impl<'a> Tr<'a> {
             syn::Pat::Ident(i) if i.by_ref.is_none() && i.mutability.is_none() && i.subpat.is_none() => i.ident.to_string(),
             p => return Err(format!("loop pattern `{}`", compact(p))),
         };
-        let list = self
-            .name(&compact(&f.expr))
-            .ok_or_else(|| format!("loop over `{}` (not in the name map)", compact(&f.expr)))?;
+        // the list: through the name map, or an immutable local (a binder of `if let Some(list) = …`) - it is handed to
+        // the loop function at the call site, where it is in scope
+        let list_c = compact(&f.expr);
+        let list_s: String = match self.name(&list_c) {
+            Some(v) => v.to_string(),
+            None if self.local(&list_c) == Some(false) => lean_ident(&list_c),
+            None => return Err(format!("loop over `{list_c}` (not in the name map)")),
+        };
+        let list = list_s.as_str();
         if self.name(&var).is_some() || self.local(&var).is_some() || var == "tail" {
             return Err(format!("loop variable `{var}` shadows a name in scope"));
         }
